@@ -202,6 +202,31 @@ def forwarded_stale(m, w, leader=N1, via=N2, new=N3, beats=0):
     return w
 
 
+def deposed_runahead(m, w, old=N1, new=N2, third=N3, tail=3, newk=2):
+    """`old` is cut off with an uncommitted tail and only `old` has noticed (the others keep sending into
+    the void). `new` was elected with the vote of `third`, which was cut off before it received anything of
+    the new term. `new` appended its no-op and `newk` commands that nobody else stores, and its next index
+    for `old` has run ahead of what `old` holds (heartbeats into the void). Whatever `old` answers when the
+    link comes back, nothing of the new term may be committed before somebody else really stores it."""
+    w = steady(m, w, 1, old)
+    for n in (new, third):
+        w = m.do(w, ('X', old, n, 'free'))
+    for _ in range(tail):
+        w = m.do(w, ('S', old, 'free'))
+    w = m.do(w, ('Z', old))
+    w = m.do(w, ('T', new, m.cfg.tmin + 0.001))
+    w = m.do(w, ('D', new, third), ('D', third, new))
+    if not m.summary(w, new).leader_flag:
+        m.seed_shape_ok = False
+    w = m.cut(w, new, third)
+    for _ in range(newk):
+        w = m.do(w, ('S', new, 'free'))
+    w = m.do(w, ('Z', new))
+    for _ in range(3):
+        w = m.do(w, ('T', new, m.cfg.period + 0.001))
+    return w
+
+
 def vote_requested(m, w, cand=N1, voter=N2, other=N3):
     """`cand` campaigns; its vote request to `voter` is in flight; `other` never hears `cand` (link down)
     and is connected to `voter` only: it can become a second candidate of the same term."""
@@ -666,7 +691,7 @@ def candidates(m, w, who=(N1, N2)):
     return w
 
 
-SEEDS = dict(forwarded_acked=forwarded_acked, m_readd_lateack=m_readd_lateack, vote_requested=vote_requested, forwarded_stale=forwarded_stale, reelected_cache3=reelected_cache3, deposed_obs=deposed_obs, voted=voted, stalled_old_code=stalled_old_code, reelected5=reelected5, stale_reset5=stale_reset5, stale_vote5=stale_vote5, stale_snapshot=stale_snapshot, ahead_full=ahead_full, fig8_full=fig8_full, candidates=candidates, battery_lagsnap=battery_lagsnap, ahead=ahead, lagging_newleader=lagging_newleader, m_deposed=m_deposed, split=split, version_snap=version_snap, fresh=fresh, steady=steady, lagging=lagging, lagging_snap=lagging_snap, deposed=deposed,
+SEEDS = dict(deposed_runahead=deposed_runahead, forwarded_acked=forwarded_acked, m_readd_lateack=m_readd_lateack, vote_requested=vote_requested, forwarded_stale=forwarded_stale, reelected_cache3=reelected_cache3, deposed_obs=deposed_obs, voted=voted, stalled_old_code=stalled_old_code, reelected5=reelected5, stale_reset5=stale_reset5, stale_vote5=stale_vote5, stale_snapshot=stale_snapshot, ahead_full=ahead_full, fig8_full=fig8_full, candidates=candidates, battery_lagsnap=battery_lagsnap, ahead=ahead, lagging_newleader=lagging_newleader, m_deposed=m_deposed, split=split, version_snap=version_snap, fresh=fresh, steady=steady, lagging=lagging, lagging_snap=lagging_snap, deposed=deposed,
              deposed_snap=deposed_snap, deposed_twice=deposed_twice, pending=pending, reconnect_pipeline=reconnect_pipeline,
              forwarded=forwarded, fig8=fig8)
 
